@@ -12,9 +12,14 @@ CHECKS = {
                      'evaluates, for ALL operand values in the stated ranges and all unary-minus placements, to the value of Excel\'s reference tree; operator '
                      'meaning vs Python integer semantics; rendering invariance (blanks, redundant parentheses); #DIV/0! propagation.',
                 note=XH_NOTE),
+    'C02': dict(engine='XH', technique='symbolic execution (CrossHair+z3) of the real tokenizer+parser on formula text with symbolic string/sheet/number content and symbolic white-space placement',
+                text='Bounded symbolic model checking: for string literals over ALL code points (length <= 3, thorough 4) at 10 placements, quoted sheet names '
+                     '(all valid titles up to length 2/3), integer literals, all $ placements, every single/pair white-space placement and leading-= spelling on 10 '
+                     'construct-covering skeletons and enumerated tree skeletons, the real parse equals the tree the text denotes (oracle = the generator\'s own tree).',
+                note=XH_NOTE + ' The named-range table handed to the parser is an empty dict subclass whose membership test compares by equality (avoids hashing symbolic strings).'),
 }
 NA = {
     'C12': 'persist/restore is ten lines around jsonpickle -> json (C encoder) -> gzip/file I/O; no repo-side kernel a solver can quantify over (symbolic values are realised or pickled as proxy objects at the codec boundary)',
 }
-for _p in ['C02', 'C03', 'C04', 'C05', 'C06', 'C07', 'C08', 'C09', 'C10', 'C11', 'C13', 'C14', 'C15', 'C16', 'C17', 'C18', 'C19', 'C20']:
+for _p in ['C03', 'C04', 'C05', 'C06', 'C07', 'C08', 'C09', 'C10', 'C11', 'C13', 'C14', 'C15', 'C16', 'C17', 'C18', 'C19', 'C20']:
     NA.setdefault(_p, 'check not built yet in this revision (planned: see DESIGN.md §4)')
